@@ -151,7 +151,12 @@ def _opt_run(params, values):
     # map the documented places of h2 back to the base spelling
     m = h2
     if values["xh"]:
+        # under xhtmlOut every void tag must be spelled with ' />'
+        if "<br>" in h2 or "<hr>" in h2 or ("<img " in h2 and " />" not in h2):
+            recs.append({"key": "xhtmlOut-void-tag-spelling"})
         m = m.replace(" />", ">")
+    elif " />" in h2:
+        recs.append({"key": "xhtmlOut-void-tag-spelling"})
     nsoft = 0
     for t in t1:
         for c in (t.children or []):
